@@ -7,6 +7,7 @@ import (
 	"fmt"
 	"io"
 	"os"
+	"path/filepath"
 	"runtime"
 	"strconv"
 	"strings"
@@ -90,6 +91,30 @@ func isoWrite(env *storerun.Env, v int, abort bool) error {
 	return err
 }
 
+// isoSnapshotVersion copies the database inside tx (SnapshotInTx) and decodes the version the copy holds (0 = none, or no copy)
+func isoSnapshotVersion(env *storerun.Env, tx *bbolt.Tx, path string) int {
+	_ = os.Remove(path)
+	defer os.Remove(path)
+	if _, _, err := env.Db.SnapshotInTx(tx, path); err != nil {
+		return 0
+	}
+	cp, err := bbolt.Open(path, 0600, &bbolt.Options{ReadOnly: true, Timeout: time.Second})
+	if err != nil {
+		return 0
+	}
+	defer cp.Close()
+	v := 0
+	_ = cp.View(func(ctx *bbolt.Tx) error {
+		if b := boltz.Path(ctx, "stores", "people", "p1"); b != nil {
+			if name := b.GetString("name"); name != nil {
+				v = verOf(*name)
+			}
+		}
+		return nil
+	})
+	return v
+}
+
 // observations of one read transaction, each decoded to the version it belongs to (0 = belongs to none)
 func isoObserve(env *storerun.Env, tx *bbolt.Tx) []int {
 	S := env.S
@@ -168,6 +193,7 @@ func isolationMain(args []string) error {
 		return err
 	}
 	var committed int64 = 1
+	var inTxSnaps int64
 	stop := make(chan struct{})
 	var wg sync.WaitGroup
 	var mu sync.Mutex
@@ -180,10 +206,11 @@ func isolationMain(args []string) error {
 	var failures []string
 	// readers
 	for r := 0; r < *readers; r++ {
+		r := r
 		wg.Add(1)
 		go func() {
 			defer wg.Done()
-			for {
+			for round := 0; ; round++ {
 				select {
 				case <-stop:
 					return
@@ -198,6 +225,13 @@ func isolationMain(args []string) error {
 						}
 					}()
 					obs = isoObserve(env, tx)
+					if round%150 == 7+r {
+						// a copy of the database taken inside this read transaction is one more observation of it: the file holds
+						// the state the transaction sees, whatever has been committed since it began
+						runtime.Gosched()
+						atomic.AddInt64(&inTxSnaps, 1)
+						obs = append(obs, isoSnapshotVersion(env, tx, filepath.Join(*scratch, fmt.Sprintf("intx-%d.bolt", r))))
+					}
 					return nil
 				})
 				hi := atomic.LoadInt64(&committed) + 1
@@ -347,7 +381,7 @@ func isolationMain(args []string) error {
 	}
 	close(stop)
 	wg.Wait()
-	rep := map[string]any{"read_transactions": lines, "versions": v, "aborted_writer_transactions": aborted, "helper_calls": helperCalls, "failures": failures}
+	rep := map[string]any{"read_transactions": lines, "versions": v, "aborted_writer_transactions": aborted, "helper_calls": helperCalls, "snapshots_in_read_tx": inTxSnaps, "failures": failures}
 	b, _ := json.Marshal(rep)
 	fmt.Println(string(b))
 	return nil
